@@ -32,12 +32,19 @@ class Evaluator:
         self.consts = consts or {}
         self.helpers = helpers or {}      # callee name -> python callable folding the helper on constants
         self._memo = {}
+        self.tables = {}                  # name of a write-once literal array -> list of constants (see `literal_tables`)
 
     def ev(self, e, env):
         """-> constant expression, or None"""
         k = e[0]
         if k in ('num', 'str'):
             return ('num', e[1]) if k == 'num' else e
+        if k == 'idx' and len(e) == 3 and e[1] in self.tables:
+            i = self.ev(e[2], env)
+            # subscripts are 1-based in the common IR (tv.Side.rw shifts the port's 0-based subscripts)
+            if i is not None and i[0] == 'num' and i[1].denominator == 1 and 1 <= i[1] <= len(self.tables[e[1]]):
+                return self.tables[e[1]][int(i[1]) - 1]
+            return None
         if k == 'var':
             v = env.get(e[1])
             if v is not None and is_const(v):
@@ -156,10 +163,45 @@ def meet(a, b):
     return BOT
 
 
+def literal_tables(g):
+    """arrays defined once by a brace list of literals and never stored into nor handed to a call (`static const int t[] = {..}`):
+    name -> [constants]; a subscript with a constant index folds to the element (C side only; 1-based in the common IR)"""
+    defs, dirty = {}, set()
+    for n in g.nodes:
+        s = n.stmt
+        if n.kind == 'assign':
+            l = s[1]
+            if l[0] == 'var':
+                if s[2][0] == 'op' and s[2][1] == 'list' and all(x[0] == 'num' for x in s[2][2:]) and l[1] not in defs:
+                    defs[l[1]] = [('num', x[1]) for x in s[2][2:]]
+                else:
+                    dirty.add(l[1])
+            elif l[0] == 'idx':
+                dirty.add(l[1])
+        exprs = []
+        if n.kind == 'call':
+            exprs = list(s[2])
+            for a in s[2]:
+                if a[0] == 'var':
+                    dirty.add(a[1])
+        elif s is not None:
+            exprs = [x for x in s[1:] if isinstance(x, tuple)]
+        for e in exprs:
+            for x in ir.subexprs(e):
+                if x[0] == 'call':
+                    for a in x[2:]:
+                        if isinstance(a, tuple) and a and a[0] == 'var':
+                            dirty.add(a[1])
+    return {k: v for k, v in defs.items() if k not in dirty}
+
+
 def specialise(g, env0, ev, maywrite, keep_consts=(), nofold_calls=(), clobber=None):
     """SCCP with the given entry environment {var: const}.  Returns the residual CFG: only executable nodes,
     constants substituted and folded, decided branches removed.  `maywrite(callee, pos)` tells which by-ref
     arguments a call can change."""
+    if ev.lang == 'c':
+        ev.tables = dict(ev.tables)
+        ev.tables.update(literal_tables(g))
     n = len(g.nodes)
     IN = [None] * n           # None = not reached; else dict var -> const | BOT
     work = [(g.entry.id, dict(env0))]
@@ -248,7 +290,7 @@ def specialise(g, env0, ev, maywrite, keep_consts=(), nofold_calls=(), clobber=N
             def f(x):
                 if x[0] == 'var' and x[1] in cenv and x[1] not in keep_consts:
                     return cenv[x[1]]
-                if x[0] in ('op', 'call'):
+                if x[0] in ('op', 'call') or (x[0] == 'idx' and x[1] in ev.tables):
                     c = ev.ev(x, {})
                     if c is not None:
                         return c
